@@ -73,6 +73,35 @@ AMPL = [
 ]
 
 
+# ---- memory "pumps": finite programs that keep far more string bytes alive than the limit allows while repeatedly
+# running an operation that releases accounted memory (loading code, finishing coroutines, unwinding errors, temporary
+# buffers ...).  If every release matches a charge they must be killed; a release without a charge lets them finish.
+PUMPS = [
+    # (name, prelude run once outside the loop, body run in every round)
+    ("load-blank", 'local SRC = string.rep(" ", 300000)', 'load(SRC)'),
+    ("load-code", 'local SRC = "return " .. string.rep("1 + ", 20000) .. "1"', 'load(SRC)'),
+    ("load-error", 'local SRC = "x = = " .. string.rep(" ", 300000)', 'load(SRC)'),
+    ("load-function-source", 'local SRC = string.rep(" ", 300000) local function rd() local s = SRC SRC = nil return s end', 'SRC = string.rep(" ", 1) .. "" load(rd)'),
+    ("dump-load", 'local F = load("local a = 1 return function() return a end") local D = string.dump(F)', 'load(D) string.dump(F)'),
+    ("coroutine-finish", '', 'for j = 1, 50 do coroutine.wrap(function() end)() end'),
+    ("coroutine-close", '', 'for j = 1, 50 do local co = coroutine.create(function() coroutine.yield() end) coroutine.resume(co) coroutine.close(co) end'),
+    ("coroutine-in-pcall", '', 'local co = coroutine.create(function() end) pcall(coroutine.resume, co)'),
+    ("pcall-table", '', 'pcall(function() local t = {} for j = 1, 3000 do t[j] = j end error("x") end)'),
+    ("error-big", 'local E = string.rep("e", 200000)', 'pcall(error, E)'),
+    ("table-grow-shrink", 'local T = {}', 'for j = 1, 5000 do T[j] = j end for j = 1, 5000 do T[j] = nil end'),
+    ("format-temp", 'local A = string.rep("a", 100000)', 'local n = #string.format("%s%s%s", A, A, A)'),
+    ("gsub-temp", 'local A = string.rep("ab", 50000)', 'local n = #string.gsub(A, "a", "xy")'),
+    ("find-temp", 'local A = string.rep("ab", 50000)', 'string.find(A, "c", 1, true) string.find(A, "(a)(b)c")'),
+    ("concat-temp", 'local T = {} for j = 1, 100 do T[j] = string.rep("z", 2000) end', 'local n = #table.concat(T, ",")'),
+    ("sort-temp", 'local T = {} for j = 1, 2000 do T[j] = (j * 7919) % 2000 end', 'table.sort(T)'),
+    ("unpack-temp", 'local T = {} for j = 1, 200 do T[j] = j end', 'select("#", table.unpack(T, 1, 200))'),
+    ("callcontext", '', 'runtime.callcontext({kill = {memory = 400000}}, function() local t = {} for j = 1, 100000 do t[j] = {} end end)'),
+    ("close-handler", 'local MT = {__close = function() local t = {} for j = 1, 100 do t[j] = j end end}', 'do local x <close> = setmetatable({}, MT) end'),
+    ("pack-unpack", 'local P = string.rep("p", 100000)', 'string.unpack("s4", string.pack("s4", P))'),
+    ("tostring-number", '', 'for j = 1, 500 do local a = tostring(j) end'),
+]
+
+
 def base_programs(tier, rng, light=False):
     """finite programs from the spec-driven generators (CloseStack / ErrorFlow / CoSem paths)"""
     progs = []
@@ -207,15 +236,36 @@ def program_level(rep, prop, tier, resource, drv, light=False):
         if o.get("trace") is not None and not o.get("timeout"):
             traces.append(("shell:%s@%d" % (name, L), [clamp_ev(e) for e in o["trace"]]))
 
+    # ---------------- memory pumps (C06): keep 5 MB of strings alive under a 2 MB limit while releasing memory in between
+    if resource == "mem" and not light:
+        pcases = []
+        for name, prelude, body in PUMPS:
+            src = ('%s\nlocal keep = {}\nfor i = 1, 100 do\n  keep[i] = string.rep("x", 50000) .. i\n  %s\nend\nemit("kept", 100 * 50000)' % (prelude, body))
+            pcases.append({"id": len(pcases), "src": src, "cpu": BIG, "mem": 2000000, "timeout": 60000, "trace": "ctx"})
+        pouts = run_lua_cases(drv, pcases)
+        cov["memory_pumps"] = len(pcases)
+        for j, (name, prelude, body) in enumerate(PUMPS):
+            o = pouts[j]
+            bad = None
+            if o.get("timeout") or o.get("crash") or o.get("panic"):
+                bad = "crash-or-hang: " + (o.get("panic") or o.get("stderr", "") or "timeout")[:200]
+            elif o.get("status") != "killed":
+                bad = "kept: 5000000 bytes of strings kept alive under a memory limit of 2000000 and the context ended with status %r (used_mem %s)" % (o.get("status"), o.get("used_mem"))
+            if bad:
+                rep.violation({"kind": "pump", "pump": name, "why": bad.split(":")[0]},
+                              {"src": pcases[j]["src"], "limit": 2000000, "observed": {k: v for k, v in o.items() if k != "trace"}, "why": bad})
+            if o.get("trace") is not None and not o.get("timeout"):
+                traces.append(("pump:%s" % name, [clamp_ev(e) for e in o["trace"]]))
+
     # ---------------- amplification: one library call with a size parameter, small limits
     acases, ameta = [], []
     Ns = (10000, 10000000, 1 << 31, 1 << 40) if tier == "quick" else (1000, 10000, 1000000, 10000000, 1 << 31, (1 << 31) + 1, 1 << 40, (1 << 62))
     for name, body in ([] if light else AMPL):
         for N in Ns:
             src = "local N = %d\nlocal function f() %s end\nlocal r = table.pack(pcall(f))\nemit('done', r[1], math.type(r[2]) == 'integer' and r[2] or -1)" % (N, body)
-            c = {"id": len(acases), "src": src, "timeout": 20000, "alloc": True}
+            c = {"id": len(acases), "src": src, "timeout": 90000, "alloc": True}
             if resource == "cpu":
-                c.update(cpu=200000, mem=BIG)
+                c.update(cpu=200000, mem=64000000)   # the memory the context may hold bounds the work between two ticks
             else:
                 c.update(cpu=20000000, mem=2000000)
             acases.append(c)
@@ -229,14 +279,14 @@ def program_level(rep, prop, tier, resource, drv, light=False):
         lim = acases[j]["cpu"] if resource == "cpu" else acases[j]["mem"]
         used = o.get("used_cpu", 0) if resource == "cpu" else o.get("used_mem", 0)
         if o.get("timeout"):
-            bad = "hang: an operation ran unmetered for 20 s"
+            bad = "hang: an operation ran unmetered for 90 s"
         elif o.get("crash") or o.get("panic"):
             bad = "crash: " + (o.get("panic") or o.get("stderr", ""))[:300]
         elif o.get("status") not in ("killed", "done", "error"):
             bad = "status %r" % o.get("status")
         elif used >= lim:
             bad = "used %d >= limit %d" % (used, lim)
-        elif o.get("wall_ms", 0) > 8000:
+        elif o.get("wall_ms", 0) > 45000:
             bad = "slow: %d ms of work under a limit of %d units" % (o.get("wall_ms", 0), lim)
         elif resource == "mem" and o.get("status") in ("done", "error") and o["events"] and o["events"][-1][1] is True \
                 and int((o["events"][-1][2] or {}).get("i", "-1")) > lim:
